@@ -40,6 +40,7 @@ enum { R = 0, W = 1 };
 static const char *dname[] = { "read", "write" };
 
 static int nbev, use_group;
+static long burstA = 200, gburst = 300;   /* -P burstA= / -P gburst=: bursts of cfgA and of the group (rates 100 / 150) */
 static struct event_base *base;
 static struct bufferevent *bev[NB];
 static int fd[NB][2];
@@ -211,6 +212,23 @@ static void loop_steps(void)
 	if (!dead) { mc_fail("C22/harness/loop-does-not-settle", "64 loop runs without quiescence"); dead = 1; }
 }
 
+static void advance_clock(int64_t d)
+{
+	vclock_advance(d);
+	while (vclock_us / TICK_US > cur_tick) {
+		cur_tick++;
+		for (int i = 0; i < nbev; i++) { bk_tick(&own[i][R]); bk_tick(&own[i][W]); }
+		bk_tick(&gbk[R]); bk_tick(&gbk[W]);
+	}
+}
+/* an application that looks at its budget: every getter brings the bucket up to date */
+static void poll_limits(int i)
+{
+	(void)bufferevent_get_read_limit(bev[i]); (void)bufferevent_get_write_limit(bev[i]);
+	(void)bufferevent_get_max_to_read(bev[i]); (void)bufferevent_get_max_to_write(bev[i]);
+	MC_COUNT("limit_polls");
+}
+
 /* "should make progress": limited, user-enabled, data available, reference budget remaining */
 static int cond(int i, int d)
 {
@@ -338,7 +356,7 @@ static uint64_t canon(void)
 static void set_limit(int i, int which)   /* 0 unset, 1 cfgA, 2 cfgB */
 {
 	struct ev_token_bucket_cfg *c = which == 1 ? cfgA : which == 2 ? cfgB : NULL;
-	long rate = which == 1 ? 100 : 50, burst = which == 1 ? 200 : 100;
+	long rate = which == 1 ? 100 : 50, burst = which == 1 ? burstA : 100;
 	bufferevent_set_rate_limit(bev[i], c);
 	if (which == M.limited[i]) return;                    /* documented no-op */
 	for (int d = 0; d < 2; d++) {
@@ -366,6 +384,9 @@ static void body(void)
 	int grp0 = mc_param("grp0", 0);       /* bufferevents start as group members */
 	int minshare = mc_param("minshare", -1);
 	int full = mc_param("full", 0);       /* larger alphabet: second cfg, group decrements */
+	int idle0 = mc_param("idle0", 0);     /* preamble: reading never enabled, idle0 idle ticks, limits polled every tick */
+	int adv3 = mc_param("adv3", 0);       /* extra op: three idle ticks in a row */
+	burstA = mc_param("burstA", 200); gburst = mc_param("gburst", 300);
 	nbev = mc_param("nbev", 1); if (nbev > NB) nbev = NB;
 	use_group = mc_param("group", 0);
 	if (fd_base < 0) { fd_base = dup(0); close(fd_base); }
@@ -379,16 +400,16 @@ static void body(void)
 	base = event_base_new();
 	if (!base) { mc_fail("C22/harness/setup", "event_base_new"); return; }
 	base->weakrand_seed.seed = 4242;
-	cfgA = ev_token_bucket_cfg_new(100, 200, 100, 200, &tick);
+	cfgA = ev_token_bucket_cfg_new(100, (size_t)burstA, 100, (size_t)burstA, &tick);
 	cfgB = ev_token_bucket_cfg_new(50, 100, 50, 100, &tick);
-	gcfg = ev_token_bucket_cfg_new(150, 300, 150, 300, &tick);
+	gcfg = ev_token_bucket_cfg_new(150, (size_t)gburst, 150, (size_t)gburst, &tick);
 	if (!cfgA || !cfgB || !gcfg) { mc_fail("C22/harness/setup", "cfg_new"); goto out; }
 	if (use_group) {
 		grp = bufferevent_rate_limit_group_new(base, gcfg);
 		if (!grp) { mc_fail("C22/harness/setup", "group_new"); goto out; }
 		grp->weakrand_seed.seed = 777;
 		if (minshare >= 0) bufferevent_rate_limit_group_set_min_share(grp, (size_t)minshare);
-		bk_config(&gbk[R], 150, 300); bk_config(&gbk[W], 150, 300);
+		bk_config(&gbk[R], 150, gburst); bk_config(&gbk[W], 150, gburst);
 	}
 	for (int i = 0; i < nbev; i++) {
 		if (socketpair(AF_UNIX, SOCK_STREAM | SOCK_NONBLOCK, 0, fd[i]) < 0) { mc_fail("C22/harness/setup", "socketpair"); goto out; }
@@ -399,37 +420,53 @@ static void body(void)
 		M.cond_since[i][R] = M.cond_since[i][W] = -1;
 		if (lim0) set_limit(i, 1);
 		if (grp && grp0) { bufferevent_add_to_rate_limit_group(bev[i], grp); M.member[i] = 1; }
-		bufferevent_enable(bev[i], EV_READ | EV_WRITE);
-		M.en[i][R] = M.en[i][W] = 1;
+		bufferevent_enable(bev[i], idle0 ? EV_WRITE : EV_READ | EV_WRITE);
+		M.en[i][R] = !idle0; M.en[i][W] = 1;
 	}
 	loop_steps();
 	progress_check();
+	/* idle preamble: buckets fill up and stay full while the application keeps polling its budget
+	 * (groups are brought up to date by their refill timer every tick anyway) */
+	for (int k = 0; k < idle0 && !dead; k++) {
+		advance_clock(TICK_US);
+		loop_steps();
+		for (int i = 0; i < nbev; i++) poll_limits(i);
+		progress_check();
+	}
 	for (int i = 0; i < nbev; i++) M.op_bytes[i][R] = M.op_bytes[i][W] = 0;
 
-	enum { OP_END, OP_ADV, OP_ADV_HALF, OP_BEV };     /* OP_BEV: per-bufferevent sub-alphabet */
+	enum { OP_END, OP_ADV, OP_ADV_HALF, OP_ADV3 };     /* then the per-bufferevent sub-alphabets, then the group ops */
 	enum { B_WRITE50, B_WRITE1000, B_DECR_R_POS, B_DECR_R_NEG, B_DECR_W_POS, B_DECR_W_NEG,
 	       B_MAXR, B_MAXW, B_MAXDEF, B_LIMIT, B_UNLIMIT, B_JOIN, B_LEAVE,
-	       B_EN_R, B_DIS_R, B_EN_W, B_DIS_W, B_LIMIT_B, N_BOPS };
+	       B_EN_R, B_DIS_R, B_EN_W, B_DIS_W, B_LIMIT_B, B_POLL, N_BOPS };
 	enum { G_DECR_R_POS, G_DECR_R_NEG, G_DECR_W_POS, G_DECR_W_NEG, N_GOPS };
 	/* -P bops=<bit mask over the B_ operations> selects the per-bufferevent sub-alphabet of a run */
 	int bmap[N_BOPS], nb_ops = 0;
-	unsigned mask = (unsigned)mc_param("bops", full ? (1 << N_BOPS) - 1 : (1 << (N_BOPS - 1)) - 1);
+	unsigned mask = (unsigned)mc_param("bops", full ? (1 << B_POLL) - 1 : (1 << B_LIMIT_B) - 1);
+	int nglob = adv3 ? 4 : 3;             /* END, ADV, ADV_HALF [, ADV3] */
 	for (int b = 0; b < N_BOPS; b++) if (mask & (1u << b)) bmap[nb_ops++] = b;
-	int n_ops = 3 + nbev * nb_ops + (grp && mc_param("gops", full) ? N_GOPS : 0);
+	int n_ops = nglob + nbev * nb_ops + (grp && mc_param("gops", full) ? N_GOPS : 0);
 	for (int step = 0; step < D && !dead; step++) {
 		int op = mc_choose(n_ops, 0, "op");
 		if (op == OP_END) break;
 		if (op == OP_ADV || op == OP_ADV_HALF) {
-			int64_t d = op == OP_ADV ? TICK_US : TICK_US / 2;
-			vclock_advance(d);
-			while (vclock_us / TICK_US > cur_tick) {
-				cur_tick++;
-				for (int i = 0; i < nbev; i++) { bk_tick(&own[i][R]); bk_tick(&own[i][W]); }
-				bk_tick(&gbk[R]); bk_tick(&gbk[W]);
-			}
+			advance_clock(op == OP_ADV ? TICK_US : TICK_US / 2);
 			mc_observe("adv(%s) ", op == OP_ADV ? "1" : "1/2");
-		} else if (op < 3 + nbev * nb_ops) {
-			int i = (op - 3) / nb_ops, b = bmap[(op - 3) % nb_ops];
+		} else if (adv3 && op == OP_ADV3) {
+			/* three ticks one after the other; the last one is finished by the common code below */
+			for (int k = 0; k < 2 && !dead; k++) {
+				advance_clock(TICK_US);
+				loop_steps();
+				if (!dead) progress_check();
+				for (int i = 0; i < nbev; i++) {
+					mc_observe("[%ld,%ld] ", M.op_bytes[i][R], M.op_bytes[i][W]);
+					M.op_bytes[i][R] = M.op_bytes[i][W] = 0;
+				}
+			}
+			advance_clock(TICK_US);
+			mc_observe("adv(3) ");
+		} else if (op < nglob + nbev * nb_ops) {
+			int i = (op - nglob) / nb_ops, b = bmap[(op - nglob) % nb_ops];
 			struct bufferevent_private *p = BEV_UPCAST(bev[i]);
 			switch (b) {
 			case B_WRITE50: case B_WRITE1000: {
@@ -462,10 +499,11 @@ static void body(void)
 			case B_DIS_R: bufferevent_disable(bev[i], EV_READ); M.en[i][R] = 0; mc_observe("disR%d ", i); break;
 			case B_EN_W: bufferevent_enable(bev[i], EV_WRITE); M.en[i][W] = 1; mc_observe("enW%d ", i); break;
 			case B_DIS_W: bufferevent_disable(bev[i], EV_WRITE); M.en[i][W] = 0; mc_observe("disW%d ", i); break;
+			case B_POLL: poll_limits(i); mc_observe("poll%d ", i); break;
 			}
 			(void)p;
 		} else {
-			int g = op - 3 - nbev * nb_ops;
+			int g = op - nglob - nbev * nb_ops;
 			int d = (g == G_DECR_R_POS || g == G_DECR_R_NEG) ? R : W;
 			long decr = (g == G_DECR_R_POS || g == G_DECR_W_POS) ? 150 : -300;
 			if (d == R) bufferevent_rate_limit_group_decrement_read(grp, decr);
